@@ -49,7 +49,7 @@ structure FieldRow where
   writeOnly : Bool
   skipPtr : Nat        -- x-go-type-skip-optional-pointer: 0 unset, 1 true, 2 false
   xOmit : Nat          -- x-omitempty: 0 unset, 1 true, 2 false
-  jsonIgnore : Bool    -- x-go-json-ignore: true
+  jsonIgnore : Nat     -- x-go-json-ignore: 0 unset, 1 true, 2 false
   nullableType : Bool  -- output-options.nullable-type
   roFlag : Bool        -- compatibility.disable-required-readonly-as-pointer
   gotPointer : Bool
@@ -75,11 +75,11 @@ def docOmit (r : FieldRow) : Bool :=
   let base := if r.nullable then (r.nullableType && should) else should
   if r.xOmit == 1 then true else if r.xOmit == 2 then false else base
 
-def docTagName (r : FieldRow) : Nat := if r.jsonIgnore then 1 else 0
+def docTagName (r : FieldRow) : Nat := if r.jsonIgnore == 1 then 1 else 0
 
 def fieldRowOk (r : FieldRow) : Bool :=
   r.gotPointer == docPointer r && r.gotNullableWrap == docNullableWrap r &&
-  r.gotTagName == docTagName r && (r.jsonIgnore || r.gotOmit == docOmit r)
+  r.gotTagName == docTagName r && (r.jsonIgnore == 1 || r.gotOmit == docOmit r)
 
 /-- Coordinates of a generated declaration an extension may change (bit positions):
 0 type of the member, 1 name of the Go field, 2 pointer-ness, 3 omitempty, 4 json tag name,
@@ -115,7 +115,8 @@ def extRowOk (r : ExtRow) : Bool := r.changed == docExtMask r.ext
 /-- Composite shapes of the documentation: slices for arrays, maps for free-form and
 additional-properties-only objects, the referenced named type for `$ref`. shape: 0 array of string,
 1 array of `$ref Y`, 2 `{type: object}`, 3 additionalProperties: true, 4 additionalProperties: {type: integer},
-5 additionalProperties: `$ref Y`, 6 `$ref Y`, 7 array of array of integer. `asMember`: as an optional member of
+5 additionalProperties: `$ref Y`, 6 `$ref Y`, 7 array of array of integer, 8–10 arrays whose items get a type of their
+own, 11–13 allOf compositions. `asMember`: as an optional member of
 an object (then a pointer to it). -/
 structure ShapeRow where
   shape : Nat
@@ -127,6 +128,12 @@ def docShape : Nat → String
   | 0 => "[]string" | 1 => "[]Y" | 2 => "map[string]interface{}" | 3 => "map[string]interface{}"
   | 4 => "map[string]int" | 5 => "map[string]Y" | 6 => "Y" | 7 => "[][]int"
   | 8 => "[]X_Item" | 9 => "[]X_Item" | 10 => "[]X_Item"   -- items with a declaration of their own: enum, object + additional, union
+  -- compositions (fields as "<Field> <type> <json name>[,omitempty]"): a member is a pointer with omitempty exactly
+  -- when no member of the allOf requires it. 11: {p} + {q, required q}; 12: $ref Y {a} + {q, r, required a q};
+  -- 13: {p, required p} + {q} + {s, required s}
+  | 11 => "struct{P *string p,omitempty; Q int q}"
+  | 12 => "struct{A string a; Q int q; R *bool r,omitempty}"
+  | 13 => "struct{P string p; Q *int q,omitempty; S string s}"
   | _ => "?"
 
 /-- as the member `m` of `H` the item type is named after the path to it -/
